@@ -56,6 +56,28 @@ def starts(tier):
             ("udn", "W0", NONDEFAULT), ("ldn", "W0", {}), ("lsn", "W6", {})]
 
 
+def guard_margin(art):
+    """largest |J - 1/sqrt(det g^ij)|/|J| of a generated grid, in units of its geometry_rtol: how
+    close the mesh built from scratch is to the library's own Jacobian consistency guard"""
+    rtol = float(art.side["mesh"]["user_options"].get("geometry_rtol", 1e-10))
+    worst = 0.0
+    for reg in art.side["regions"]:
+        A = reg["arrays"]
+        for loc in ("centre", "ylow", "xlow"):
+            try:
+                g = {k: A[k][loc] for k in ("g11", "g22", "g33", "g12", "g13", "g23", "J")}
+            except KeyError:
+                continue
+            det = (g["g11"] * g["g22"] * g["g33"] + 2.0 * g["g12"] * g["g13"] * g["g23"] - g["g11"] * g["g23"] ** 2
+                   - g["g22"] * g["g13"] ** 2 - g["g33"] * g["g12"] ** 2)
+            with np.errstate(invalid="ignore", divide="ignore"):
+                rel = np.abs(np.abs(g["J"]) - 1.0 / np.sqrt(det)) / np.abs(g["J"])
+            rel = rel[np.isfinite(rel)]
+            if rel.size:
+                worst = max(worst, float(rel.max()))
+    return worst / rtol
+
+
 def compare_state(ctx, label, hist_names, state, scratch, start_art, stats, first_state):
     """state: history_record dict; scratch: Artefact of the from-scratch mesh"""
     regs_s = {r["myID"]: r for r in scratch.side["regions"]}
@@ -203,9 +225,17 @@ def run(ctx):
                     # scratch with the same final settings is refused as well
                     stats["states_refused_by_geometry"] = stats.get("states_refused_by_geometry", 0) + 1
                     if sa.ok:
-                        ctx.violation("%s | final settings %s | geometry() fails after a history but succeeds on the mesh built from scratch" % (g, names[final]),
-                                      dict(start=label, history=hn, error=state["geometry_error"]),
-                                      replay=dict(start=label, history=hn))
+                        # the guard compares two expressions for J at geometry_rtol = 1e-10; a mesh
+                        # whose own residual is within a factor 4 of that threshold can fall on
+                        # either side of it when its points move by the refinement tolerance
+                        margin = guard_margin(sa)
+                        ctx.setmax("worst_scratch_residual_over_geometry_rtol_when_a_history_state_is_refused", margin)
+                        if margin > 0.25 and "Jacobian" in state["geometry_error"]:
+                            stats["states_refused_at_the_guard_threshold"] = stats.get("states_refused_at_the_guard_threshold", 0) + 1
+                        else:
+                            ctx.violation("%s | final settings %s | geometry() fails after a history but succeeds on the mesh built from scratch" % (g, names[final]),
+                                          dict(start=label, history=hn, error=state["geometry_error"], scratch_margin=margin),
+                                          replay=dict(start=label, history=hn))
                 if not sa.ok:
                     continue
                 # settings other than nonorthogonal_* unaffected
